@@ -28,8 +28,8 @@ CHECKS = {
  "C17": dict(cat="exploration", tech="panic guard + exact allocation meter + process journal around Match/Unmarshal on hostile logs; reference matcher (docs/event.md) compared on well-formed logs; filter-implication and round-trip oracles",
    text="Generated definitions (all operators, topic/data/dynamic references, boundary arguments) are matched against logs built around every referenced word with hostile offsets and lengths up to 2^64-1: no panic, allocation <= 64KiB+64*size, answers equal to the documented semantics wherever the log is well formed; valid definitions must round-trip, have a derivable filter, and every matching log must pass that filter; decoder inputs (mutated encodings, random bytes) must never yield an invalid definition.",
    note="Go toolchain; refimpl.Match / refimpl.FilterPass (from docs/event.md and go-ethereum filter semantics); 'valid' = repository Validate", ref="§3 C17"),
- "C01": dict(cat="exploration", tech="bounded-exhaustive DFS over share sequences on the real EpochKG with an oracle after every call (construction labels, master-secret key, trial decryption)",
-   text="Every sequence up to the depth bound over {valid share, share for another identity, share from another eon key set, repeat} for all (n,t) with n<=3 (thorough n<=4), plus sampled sequences for n<=7, is fed to epochkg.EpochKG; after every call: key present iff t distinct valid shares were delivered, key byte-equal to H1(id)^s and decrypting a ciphertext for the identity, junk/repeats return an error and leave the counted shares unchanged.",
+ "C01": dict(cat="exploration", tech="bounded-exhaustive DFS over share sequences on the real EpochKG with an oracle after every call (construction labels, master-secret key, trial decryption); seeded gossip-message plans through the real validator/handler/trigger over the in-memory Postgres with poisoned share rows and all scan orders, table-level oracle after every step",
+   text="Every sequence up to the depth bound over {valid share, share for another identity, share from another eon key set, repeat} for all (n,t) with n<=3 (thorough n<=4), plus sampled sequences for n<=7, is fed to epochkg.EpochKG; after every call: key present iff t distinct valid shares were delivered, key byte-equal to H1(id)^s and decrypting a ciphertext for the identity, junk/repeats return an error and leave the counted shares unchanged. Layer 2: the same alphabet as gossip messages (one or two identities, repeats, the node's own trigger) through P2PMessaging dispatch, DecryptionKeyShareHandler.ValidateMessage/HandleMessage and KeyShareHandler on pgmem, with invalid/undecodable/empty rows placed directly in decryption_key_share and insertion/reverse/shuffled scan orders: invalid messages rejected, valid ones accepted, stored and announced keys byte-equal to H1(id)^s, a key only with >= t valid rows, and a key for every identity of an accepted message once all its identities hold >= t valid rows.",
    note="Go toolchain; shlib/blst as reference cryptography; fixtures.EonKeys (explicit polynomials)", ref="§3 C01"),
  "C06": dict(cat="exploration", tech="exhaustive enumeration of signer/signature lists against a label-based reference predicate, call-by-call comparison with the exported validators; metamorphic single-field changes; panic guard",
    text="For both flavours and all keyper sets n<=3 (thorough n<=4) with every threshold: every signer-index list of length 0..n+1 over in-range/out-of-range values x signature lists (genuine, uniform, <=2 deviations) with entries by the listed signer / another member / an outsider / over data differing in one field / garbage; the validator must accept exactly when the label-based rule holds, and every single-field change of an accepted message must be rejected.",
